@@ -303,8 +303,12 @@ impl DeepClone for PdfStream {
             StreamInner::InFile { id, ref file_range } => cloner.stream_data(id, file_range.clone())?,
             StreamInner::Pending { ref data } => data.clone()
         };
+        let mut info = self.info.deep_clone(cloner)?;
+        // the copied data is what the source yields after decryption, which may be shorter than
+        // the byte range it occupies in the source file
+        info.insert("Length", Primitive::Integer(data.len() as i32));
         Ok(PdfStream {
-            info: self.info.deep_clone(cloner)?, inner: StreamInner::Pending { data }
+            info, inner: StreamInner::Pending { data }
         })
     }
 }
